@@ -1,6 +1,7 @@
 """C05 - the Monte-Carlo runner runs exactly the requested repetitions per
 variation (model-based check of SimulationRunner.simulate)."""
 import itertools
+import json
 import os
 import shutil
 import tempfile
@@ -121,8 +122,26 @@ def _program(draw, tier):
         st.lists(st.booleans(), min_size=3, max_size=3),
         st.lists(st.integers(0, 3), min_size=3, max_size=3)),
         max_size=3).map(lambda l: [[list(a), list(b)] for a, b in l]))
-    return dict(part="program", cfg=cfg, mode=mode,
-                twice=draw(st.integers(0, 2)) == 0, lookups=lookups)
+    twice = draw(st.integers(0, 2)) == 0
+    regrid = None
+    if twice and cfg["filename"] is None and cfg["unpacked"] and \
+            draw(st.booleans()):
+        # the user replaces the values of one unpacked parameter on the live
+        # runner between the two simulate() calls
+        which = draw(st.integers(0, len(cfg["unpacked"]) - 1))
+        old = cfg["unpacked"][which][1]
+        if isinstance(old[0], str):
+            new = draw(st.lists(st.sampled_from(["n1", "n2", "QPSK", "zz"]),
+                                min_size=1, max_size=4, unique=True))
+        else:
+            new = draw(st.lists(st.integers(50, 90), min_size=1, max_size=4,
+                                unique=True))
+        regrid = dict(which=which, values=new,
+                      how=draw(st.sampled_from(["setitem", "add"])))
+        nvar2 = nvar // len(old) * len(new)
+        cfg["idspace"] = cfg["rep_max"] * (nvar + nvar2) + 2
+    return dict(part="program", cfg=cfg, mode=mode, twice=twice,
+                regrid=regrid, lookups=lookups)
 
 
 PARTS = [Part("program", _program, quick=2500, thorough=150000,
@@ -246,6 +265,24 @@ def check(case, ctx):
             for run in range(n_runs):
                 env.run_no = run
                 inj.new_run(None)
+                if run == 1 and case.get("regrid"):
+                    rg = case["regrid"]
+                    cfg = json.loads(json.dumps(cfg))
+                    name = cfg["unpacked"][rg["which"]][0]
+                    cfg["unpacked"][rg["which"]][1] = rg["values"]
+                    values = (np.array(rg["values"])
+                              if cfg["container"].get(name) == "array"
+                              else list(rg["values"]))
+                    if rg["how"] == "setitem":
+                        runner.params[name] = values
+                    else:
+                        runner.params.add(name, values)
+                    env.regrid(cfg)
+                    model.cfg = cfg
+                    names, combos = H.variations_of(cfg)
+                    nvar = len(combos)
+                    tags["regrid"] = rg["how"]
+                    ctx.label("regrid:" + rg["how"])
                 log_start = len(env.log)
                 vlist = [mode["index"]] if single else list(range(nvar))
                 use_partial = cfg["filename"] is not None
